@@ -310,7 +310,11 @@ func checkC09(c C09Case) Result {
 					if et.Type == "" && t.Type == cty.NilType {
 						continue
 					}
-					if t.DefRangePtr == nil || t.DefRangePtr.Start.Byte != et.DefStart || t.DefRangePtr.End.Byte != et.DefEnd {
+					if et.NoDef {
+						if t.DefRangePtr != nil {
+							continue
+						}
+					} else if t.DefRangePtr == nil || t.DefRangePtr.Start.Byte != et.DefStart || t.DefRangePtr.End.Byte != et.DefEnd {
 						continue
 					}
 					found = true
